@@ -219,13 +219,13 @@ def case_st(draw):
 
 
 def sub_docutils(acc, shard, nshards, tier, seed):
-    n = 250 if tier == "quick" else 8000
+    n = 250 if tier == "quick" else 5000
     hyp_run(acc, case_st(), lambda c: check_case(acc, c), max_examples=n,
             seed=shard_seed(seed, shard, 2), is_known=known().matches)
 
 
 def sub_both(acc, shard, nshards, tier, seed):
-    n = 120 if tier == "quick" else 3000
+    n = 120 if tier == "quick" else 2000
     with front.sphinx_project() as project:
         hyp_run(acc, case_st(), lambda c: check_case(acc, {**c, "sphinx": True}, project), max_examples=n,
                 seed=shard_seed(seed, shard, 22), is_known=known().matches)
